@@ -109,6 +109,10 @@ pub fn rich_asts() -> Vec<File> {
     let tb0 = Clause::TypeBlock { tname: "AWS::X::Y".into(), cond: None, lets: vec![], body: vec![vec![un(vec![key("Properties"), key("p")], UnOp::IsString, false)], vec![un(vec![key("Properties"), key("n")], UnOp::Exists, false), un(vec![key("Properties")], UnOp::Exists, true)]] };
     out.push(file1(rule("r0", vec![vec![tb0.clone()]])));
     out.push(file1(rule("r0", vec![vec![tb0.clone()], vec![un(vec![key("a")], UnOp::Exists, true)]])));
+    // variables defined inside a type block are evaluated against each matched resource
+    let tbl = Clause::TypeBlock { tname: "AWS::X::Y".into(), cond: None, lets: vec![Let { name: "pp".into(), val: Arg::Q(false, vec![key("Properties"), key("p")]) }, Let { name: "cn".into(), val: Arg::Call("count".into(), vec![Arg::Q(false, vec![key("Properties"), Part::Star])]) }], body: vec![vec![un(vec![Part::Var("pp".into())], UnOp::IsString, false)], vec![bin(vec![Part::Var("cn".into())], BinOp::Eq, false, i(2))]] };
+    out.push(file1(rule("r0", vec![vec![tbl.clone()]])));
+    out.push(file1(rule("r0", vec![vec![tbl], vec![un(vec![key("Resources")], UnOp::Exists, false)]])));
     // a type block whose body is SKIP for every matched resource
     let tbs = Clause::TypeBlock { tname: "AWS::X::Y".into(), cond: None, lets: vec![], body: vec![vec![bin(vec![key("Properties"), key("l"), Part::Filter(vec![vec![bin(vec![key("x")], BinOp::Eq, false, i(9))]]), key("x")], BinOp::Eq, false, i(1))]] };
     out.push(File { lets: vec![], rules: vec![rule("r0", vec![vec![tbs]]), rule("r1", vec![vec![named("r0")]])], default: vec![] });
@@ -352,5 +356,8 @@ fn cfn_docs() -> Vec<String> {
         r#"{}"#.to_string(),
         r#"{"Resources":{"r1":{"Type":"AWS::X::Y"}},"a":[1]}"#.to_string(),
         r#"{"Resources":{"r1":{"Type":"AWS::X::Y","Properties":{"l":[{"x":1}]}},"r3":{"Type":"AWS::X::Y","Properties":{"l":[]}}}}"#.to_string(),
+        // several resources of the type whose values differ, compliant first / non-compliant first
+        r#"{"Resources":{"r1":{"Type":"AWS::X::Y","Properties":{"p":"s","n":3}},"r2":{"Type":"AWS::X::Y","Properties":{"p":1,"n":9,"q":0}},"r3":{"Type":"AWS::Z::W"}}}"#.to_string(),
+        r#"{"Resources":{"r1":{"Type":"AWS::X::Y","Properties":{"p":1,"n":9,"q":0}},"r2":{"Type":"AWS::X::Y","Properties":{"p":"s","n":3}}}}"#.to_string(),
     ]
 }
